@@ -88,6 +88,18 @@ impl<T: Sty, const N: usize> Sty for heapless::Vec<T, N> {
 impl<const N: usize> Sty for heapless::String<N> {
     fn sty() -> Option<String> { Some(format!("(hstr {})", N)) }
 }
+// heapless 0.8: the same rows (the model proves the two versions' rows equal, C14_alias_rows)
+impl<T: Sty, const N: usize> Sty for heapless08::Vec<T, N> {
+    fn sty() -> Option<String> { T::sty().map(|t| format!("(hvec {} {})", t, N)) }
+}
+impl<const N: usize> Sty for heapless08::String<N> {
+    fn sty() -> Option<String> { Some(format!("(hstr {})", N)) }
+}
+// nalgebra's row goes through an unsafe `flatten`: outside the expression language, decided by the
+// direct oracles (conformance of the captured items, schema-driven reading of the real bytes)
+impl<T, const R: usize, const C: usize> Sty for nalgebra::SMatrix<T, R, C> {
+    fn sty() -> Option<String> { None }
+}
 
 // ---- types using the workspace derive: the declaration, restated ----
 fn field(name: &str, t: Option<String>) -> Option<String> {
